@@ -443,7 +443,10 @@ def denote(r, defs, memo=None) -> Den:
         fl = set(d.flags)
         if not closed_form_inverse(inner, defs):
             fl.add('cg')
-        return Den(Mi, np.abs(Mi), d.out_S, d.in_S, fl, d.nf + 1)
+        Ai = np.abs(Mi)
+        if 'trig' in fl:
+            Ai = np.maximum(Ai, d.A.T)  # rotations: the inverse is the transpose, same error scale
+        return Den(Mi, Ai, d.out_S, d.in_S, fl, d.nf + 1)
     if k == 'block':
         bl = [denote(b, defs, memo) for b in _block_leaves(r['blocks'])]
         fl = set().union(*[d.flags for d in bl])
